@@ -65,11 +65,11 @@ static ref::Value mkref(unsigned i) {
   }
 }
 
-enum { NOPS_OBJ = 22, NOPS_ARR = 14 };
+enum { NOPS_OBJ = 23, NOPS_ARR = 14 };
 static const char* kObjOps[NOPS_OBJ] = {"RemoveMember(first)", "RemoveMember(middle)", "RemoveMember(last)", "RemoveMember(missing)", "EraseMember[0,1)", "EraseMember[n/2,n/2+1)", "EraseMember[n-1,n)",
                                          "EraseMember[0,n)", "EraseMember[1,n-1)", "AddMember(new)", "AddMember x (n+1)", "MemberReserve(n+1)", "MemberReserve(2n+3)", "Clear", "CopyFrom into another node",
                                          "move into another node", "DestroyMap", "CreateMap", "RemoveMember all from the front", "RemoveMember all from the back", "RemoveMember(middle) ; AddMember(same key)",
-                                         "copy-construct a document from it"};
+                                         "copy-construct a document from it", "CopyFrom with copyString=false ; the source document parses another text ; the copy is read"};
 static const char* kArrOps[NOPS_ARR] = {"PopBack", "Erase[0,1)", "Erase[n/2,n/2+1)", "Erase[n-1,n)", "Erase[0,n)", "Erase[1,n-1)", "PushBack", "PushBack x (n+1)", "Reserve(n+1)", "Reserve(2n+3)", "Clear",
                                          "CopyFrom into another node", "move into another node", "a[n/2] = new value"};
 
@@ -208,6 +208,21 @@ struct Sweep {
           oracle(*other, m, desc, "a document copied from it", ctx);
           bool eq = static_cast<const N&>(*other) == static_cast<const N&>(doc);
           if (!eq) ctx.violation("copy_not_equal", "sweep_copy_not_equal", desc, "a deep copy does not compare equal to its source");
+          break;
+        }
+        case 22: {
+          // the default CopyFrom (copyString = false) may share CONSTANT strings with its source, never strings
+          // the source document owns (copied keys, the text buffer of a parsed document): the source parses
+          // another text (its old buffers go back to a freeing allocator), then the copy is read
+          other.reset(new Doc());
+          other->CopyFrom(doc, other->GetAllocator());
+          oracle(*other, m, desc, "the copy", ctx);
+          ref::Value keepm = m;
+          doc.Parse("[\"another text, longer than the short keys of the first one ..............................\"]");
+          oracle(*other, keepm, desc, "the copy after its source parsed another text", ctx);
+          m = ref::Value::mk(ref::Arr);
+          m.a.push_back(ref::Value::mkS("another text, longer than the short keys of the first one .............................."));
+          ref::release(keepm);
           break;
         }
       }
